@@ -102,3 +102,4 @@ LEVEL = {
 CFG['rule'] = CFG['rule'] + ' ' + 'Stored sizes: after every recorded request every shard is asked for the raw stored data of the known ids; a point larger than the MaxPointSize of its collection plan is code 118 (sequences plan:update-merged-size-over / plan:update-replaced-size-at: 140 stored bytes + an update of 120 bytes under a limit of 200). Collection ids: the binding tag alphanum is part of the documented limits (doc_create2 / doc_create1), a created collection whose id has another character is code 102.'
 CFG['rule'] = CFG['rule'] + ' ' + 'Stray parameter block: a v2 collection whose property vector is a flat index of dimension 3 with an unvalidated vamana block of dimension 5, then v1 inserts with 5 and with 3 components and a v2 search (code 119).'
 CFG['rule'] = CFG['rule'] + ' ' + 'Plan MID (1500 points per collection): inserts of 2000 / 1500 / 1400+100 / 1401+100 points; v1 searches with limits 1, 25, 26, 75 on a v2 collection whose vamana index has search size 25; Unicode lower-case letters and digits in collection ids.'
+CFG['rule'] = CFG['rule'] + ' ' + 'A collection whose points partly lack the vector (indexed properties are optional) is searched with filtered graph queries whose filter matches such points: valid requests (2xx).'
